@@ -470,7 +470,8 @@ func writeEvidence(verif, prop, tier string, seed int, wall, loadS, genS, solver
 		"strings are sequences of code points < 256 (bytes)",
 		"pointer receivers are non-nil (asserted at every contracted call site)",
 		"goroutines, channel contents and select readiness are not modelled; lock acquisition has no effect on data",
-		"make/new of slices: element contents unconstrained rather than zero")
+		"make/new of slices: element contents unconstrained rather than zero",
+		"existing slices hold at most 2^46 elements; make() beyond 2^47 elements is a panic obligation, smaller allocations are assumed to succeed (memory exhaustion is not modelled)")
 	var fnames []string
 	for _, f := range freps {
 		fnames = append(fnames, f.Key)
